@@ -73,11 +73,11 @@ class Flow:
             return Target("unknown", f.id)
         return Target("unknown", None)
 
-    def must_call(self, fn, pred, module, cls=None, defcls=None, depth=6, _stack=None):
+    def must_call(self, fn, pred, module, cls=None, defcls=None, depth=6, _stack=None, skip=None):
         """Every path from entry of ``fn`` to a normal return executes a call ``c`` with
         ``pred(target, call)`` true, directly or inside a repo-local callee (self/super method
         or module-level function) that itself must-calls it."""
-        key = (id(fn), id(pred), cls.qual if isinstance(cls, ClassInfo) else None)
+        key = (id(fn), id(pred), cls.qual if isinstance(cls, ClassInfo) else None, id(skip))
         if key in self._must:
             return self._must[key]
         _stack = _stack or set()
@@ -92,8 +92,10 @@ class Flow:
                 if pred(t, c):
                     return True
                 if t.kind in ("method", "func") and t.func is not None:
+                    if skip is not None and skip(t.func):
+                        continue
                     if self.must_call(t.func, pred, t.module, t.cls if t.kind == "method" else None,
-                                      t.defcls, depth - 1, _stack):
+                                      t.defcls, depth - 1, _stack, skip):
                         return True
             return False
 
